@@ -45,6 +45,45 @@ func (c *Ctx) importFuncs() []*ssa.Function {
 func runC14(c *Ctx) {
 	hi := func(m string) *types.Func { return c.method("chainimport", "headersImport", m) }
 
+	c.rule("C14.G4", "the end of the import range is the io.EOF sentinel itself: where appendNewHeaders and processBatch turn an iterator error into \"no more batches\" they compare it with io.EOF by identity, and package chainimport never asks errors.Is(err, io.EOF) (the file source wraps genuine read faults with %w, and a short read surfaces as io.EOF: matched loosely, a fault after the first batches would end the loop and Import would report success with the stores short of the file)", func() {
+		eof := c.P.Pkg("io").Scope().Lookup("EOF")
+		is := c.P.FuncObj("errors", "Is")
+		if eof == nil || is == nil {
+			panic(anchorErr{"io.EOF / errors.Is"})
+		}
+		isEOF := func(v ssa.Value) bool {
+			u, ok := ir.Strip(v).(*ssa.UnOp)
+			if !ok || u.Op != token.MUL {
+				return false
+			}
+			g, ok := u.X.(*ssa.Global)
+			return ok && g.Object() == eof
+		}
+		var loose []string
+		for _, fn := range c.P.Funcs {
+			if fn.Pkg == nil || fn.Pkg.Pkg.Path() != ir.ModPath+"/chainimport" {
+				continue
+			}
+			for _, in := range find(fn, callTo(is)) {
+				a := ir.CallOf(in).Args
+				if len(a) == 2 && isEOF(a[1]) {
+					loose = append(loose, c.at(in))
+				}
+			}
+		}
+		sort.Strings(loose)
+		c.verdict(len(loose) == 0, "chainimport | io.EOF is matched by identity only", "", "no errors.Is(.., io.EOF) in the package", "errors.Is(err, io.EOF) at "+join(loose)+": a wrapped read fault (the file source wraps with %w; short reads are io.EOF) is taken for the end of the range", loose...)
+		total := 0
+		var sites []string
+		for _, name := range []string{"(*chainimport.headersImport).appendNewHeaders", "(*chainimport.headersImport).processBatch"} {
+			fn := c.fn(name)
+			cmps := find(fn, binops(eqOps, isEOF, func(ssa.Value) bool { return true }))
+			total += len(cmps)
+			sites = append(sites, c.ats(cmps)...)
+		}
+		c.verdict(total >= 1, "chainimport append loop | end of range recognised by err == io.EOF", "", fmt.Sprintf("%d identity comparison(s)", total), "no comparison with io.EOF found in appendNewHeaders / processBatch: the end of the import range is no longer recognised by the sentinel", sites...)
+	})
+
 	c.rule("C14.G1", "Import touches the target stores (divergence and new-header regions) only after source compatibility, chain continuity, block-header validation, filter-header validation and region determination all succeeded; ValidatePair / ValidateSingle / ValidateBatch are validators over btcd's CheckBlockHeaderContext / CheckBlockHeaderSanity and the height+1 / PrevBlock link", func() {
 		fn := c.fn(fnImport)
 		eff := find(fn, callTo(hi("processDivergenceHeadersRegion"), hi("processNewHeadersRegion")))
@@ -121,6 +160,75 @@ func runC14(c *Ctx) {
 			n += len(find(f, callTo(bvT("ValidateBatch")))) + len(find(f, callTo(bvT("ValidatePair"))))
 		}
 		c.verdict(n >= 2, c.nm(v)+" | every batch goes through ValidateBatch and the cross-batch ValidatePair", c.P.Pos(v.Pos()), "both calls present", "Validate no longer calls ValidateBatch and the cross-batch ValidatePair")
+	})
+
+	c.rule("C14.G5", "no header of the file escapes validation as the subject: pairs only ever validate their second header, so Validate hands the first header of the range to validateFirst before the first ValidateBatch (every ValidateBatch call lies behind validateFirst = nil on the path that has seen no header yet), and validateFirst returns nil only through ValidatePair(<parent from the target store>, first) = nil or ValidateSingle(first) = nil, the parent being fetched at the first header's height - 1", func() {
+		bvT := func(m string) *types.Func { return c.method("chainimport", "blockHeadersImportSourceValidator", m) }
+		v := c.fn("(*chainimport.blockHeadersImportSourceValidator).Validate")
+		okCall := false
+		for _, f := range ir.WithClosures(v) {
+			firsts := find(f, callTo(bvT("validateFirst")))
+			batches := find(f, callTo(bvT("ValidateBatch")))
+			if len(batches) == 0 {
+				continue
+			}
+			if len(firsts) == 0 {
+				c.fail(c.nm(f)+" | the first header of the range is validated before the first batch", c.P.Pos(f.Pos()), "Validate never calls validateFirst: the first header of the file is only ever the previous header of a pair")
+				return
+			}
+			okCall = true
+			// an error of validateFirst ends the validation
+			g := errNil("validateFirst(batch[0])", firsts, 0)
+			c.guarded(f, g, 1, "ValidateBatch(batch) right after the first-header check", batches, 1, gFailEdge)
+			// validateFirst's argument is element 0 of the batch being validated
+			for _, in := range firsts {
+				a := argsOf(in)
+				okArg := len(a) == 1 && ir.DerivesFrom(a[0], func(x ssa.Value) bool {
+					ia, ok := x.(*ssa.IndexAddr)
+					if !ok {
+						return false
+					}
+					k, isC := ir.ConstInt(ia.Index)
+					return isC && k == 0
+				})
+				c.verdict(okArg, c.nm(f)+" | validateFirst is given element 0 of the batch", c.at(in), "batch[0]", "validateFirst is not applied to the first element of the batch", c.at(in))
+			}
+		}
+		c.verdict(okCall, c.nm(v)+" | Validate validates the first header of the range", c.P.Pos(v.Pos()), "validateFirst is called where the batches are validated", "no function of Validate calls both validateFirst and ValidateBatch")
+		vf := c.fn("(*chainimport.blockHeadersImportSourceValidator).validateFirst")
+		single := errNil("ValidateSingle(first)", find(vf, callTo(bvT("ValidateSingle"))), 0)
+		pair := errNil("ValidatePair(parent, first)", find(vf, callTo(bvT("ValidatePair"))), 0)
+		c.nilReturnsGuarded(vf, unionGuard("ValidatePair(parent, first) = nil or ValidateSingle(first) = nil", pair, single), 2)
+		// subject and parent of the pair
+		fetch := c.method("headerfs", "BlockHeaderStore", "FetchHeaderByHeight")
+		hF := c.field("headerfs", "BlockHeader", "Height")
+		for _, in := range find(vf, callTo(bvT("ValidatePair"))) {
+			a := argsOf(in)
+			okv := len(a) == 2 && ir.DerivesFrom(a[1], func(x ssa.Value) bool { return x == ssa.Value(vf.Params[1]) }) && ir.DerivesFrom(a[0], func(x ssa.Value) bool {
+				al, ok := x.(*ssa.Alloc)
+				if !ok {
+					return false
+				}
+				fromStore := false
+				ir.Instrs(vf, func(y ssa.Instruction) {
+					if st, ok := y.(*ssa.Store); ok && ir.DerivesFrom(st.Addr, func(z ssa.Value) bool { return z == ssa.Value(al) }) && ir.DerivesFrom(st.Val, valIsCallTo(fetch)) {
+						fromStore = true
+					}
+				})
+				return fromStore
+			})
+			c.verdict(okv, c.nm(vf)+" | the pair is (parent fetched from the target store, first header)", c.at(in), "ValidatePair(&blockHeader{parent}, first)", "validateFirst does not validate the first header as the second element of a pair whose first element comes from the target store", c.at(in))
+		}
+		for _, in := range find(vf, callTo(fetch)) {
+			a := argsOf(in)
+			b, isB := ir.Strip(a[0]).(*ssa.BinOp)
+			okv := len(a) == 1 && isB && b.Op == token.SUB && loadsField(hF)(b.X)
+			if okv {
+				k, isC := ir.ConstInt(b.Y)
+				okv = isC && k == 1
+			}
+			c.verdict(okv, c.nm(vf)+" | the parent is fetched at the first header's height - 1", c.at(in), "FetchHeaderByHeight(first.Height - 1)", "the parent of the first header is not fetched at its height minus one", c.at(in))
+		}
 	})
 
 	c.rule("C14.K1", "height/index kinds in package chainimport: a target-chain height is never passed where an import-source index is expected (or compared / merged with one); kinds are seeded from field and parameter names (…Height / …Idx, …Index), ChainTip heights and the converter targetHeightToImportSourceIndex, and propagated through arithmetic, phis, parameters and results", func() {
